@@ -40,14 +40,16 @@ impl Hash for Function {
 impl Function {
     #[must_use]
     pub fn name(&self) -> LabelString {
-        LabelString::new(
-            self.entry
-                .labels()
-                .into_iter()
-                .map(|x| x.to_string())
-                .collect::<Vec<String>>()
-                .join(", "),
-        )
+        // The labels are kept in a set: sort them, so that the name is the
+        // same in every run
+        let mut labels = self
+            .entry
+            .labels()
+            .into_iter()
+            .map(|x| x.to_string())
+            .collect::<Vec<String>>();
+        labels.sort();
+        LabelString::new(labels.join(", "))
     }
 
     pub fn new(
